@@ -49,6 +49,15 @@ Theorem C11_table_phase_irrelevant : forall init_done tab self rip shuf dists,
 Proof. exact findnodes_any_phase. Qed.
 Print Assumptions C11_table_phase_irrelevant.
 
+(* a request served through the talk handler is checked against the packet's source address, whatever endpoint (or none) the
+   sender's record advertises *)
+Theorem C11_talk_relay_check_uses_packet_source : forall shuf, is_shuffle shuf ->
+  forall init_done tab self packet_src enr_endpoint dists enrs,
+  handle_talk_find_nodes init_done tab self packet_src enr_endpoint shuf dists = Ok enrs ->
+  forall r, In r enrs -> relay_ok packet_src (rflags r) = true.
+Proof. exact talk_find_nodes_relay. Qed.
+Print Assumptions C11_talk_relay_check_uses_packet_source.
+
 (* invalid (> 256) and repeated distances contribute nothing: the reply is that of the de-duplicated valid distances *)
 Theorem C11_invalid_and_repeated_distances_ignored : forall shuf tab self rip dists,
   handle_find_nodes tab self rip shuf dists = handle_find_nodes tab self rip shuf (clean_dists dists []) /\
